@@ -19,8 +19,7 @@ Section DIRT.
 
   Lemma verify_di_accepts mem d m k cd cc e1 e2 e3 :
     forallb (fun k0 => is_str_or_absent (lookup m k0))
-      ["id"; "type"; "cryptosuite"; "proofPurpose"; "verificationMethod"; "created"; "domain"; "challenge"; "proofValue";
-       "previousProof"] = true ->
+      di_proof_members = true ->
     str_entry (lookup m "type") = di_type ->
     nonempty (str_entry (lookup m "verificationMethod")) = true ->
     str_entry (lookup m "proofPurpose") = epu_of e1 ->
